@@ -160,9 +160,9 @@ PROPS["C04"] = dict(
 
 PROPS["C15"] = dict(
     pkg="./props/c15_async",
-    tests=[REGRESS(), T("TestSyncAsyncAgree", (6, 3000), (8, 60000)), T("TestFutureProtocol", (8, 1500), (8, 40000)), T("TestCancelAfterInnerTimeout", (2, 300), (4, 5000)), T("TestCancelSpin", (4, 20), (8, 400)), T("TestCancelWhileHedgeBusy", (2, 400), (4, 8000))],
+    tests=[REGRESS(), T("TestSyncAsyncAgree", (6, 3000), (8, 60000)), T("TestFutureProtocol", (8, 1500), (8, 40000)), T("TestCancelAfterInnerTimeout", (2, 300), (4, 5000)), T("TestCancelSpin", (4, 20), (8, 400)), T("TestCancelWhileHedgeBusy", (2, 400), (4, 8000)), T("TestCancelStaysWithItsExecution", (2, 3000), (4, 60000))],
     replay_reps=300,
-    rule="(TestCancelWhileHedgeBusy) the hedge policy's goroutine is parked in its delay function or OnHedge listener while an attempt delivers an acceptable result and the caller cancels, in either order: the result is ErrExecutionCanceled. (differential) rapid-generated composition scenarios run twice on fresh instances, once through the four synchronous entry points and once through the four asynchronous ones; results, errors and invocation counts must agree step by step; non-trivial = some policy acted. (protocol) generated scenarios with every attempt parked on a harness gate, 1..16 reader goroutines issuing generated sequences of IsDone / non-blocking Done / Get / Result / Error / blocking Done before and after completion, completion listeners logging, and Cancel() before the start, while attempt k is parked, during a 1 h retry delay, or after completion; non-trivial = at least 2 readers were blocked before completion, or a Cancel landed between the first entry and completion; distinct = the scenario. TestCancelAfterInnerTimeout: Retry(Timeout(fn)), the attempt is ended by the inner Timeout, Cancel lands in the 1 h retry delay: every reader must get ErrExecutionCanceled. TestCancelSpin: batches of 2000 async unlimited-retry executions cancelled after a generated spin.",
+    rule="(TestCancelStaysWithItsExecution) 2..5 executions started from one Executor value (sync and async, with and without a configured context) are parked; some ExecutionResults are cancelled; every other execution, and later executions through the same Executor, return their own values. (TestCancelWhileHedgeBusy) the hedge policy's goroutine is parked in its delay function or OnHedge listener while an attempt delivers an acceptable result and the caller cancels, in either order: the result is ErrExecutionCanceled. (differential) rapid-generated composition scenarios run twice on fresh instances, once through the four synchronous entry points and once through the four asynchronous ones; results, errors and invocation counts must agree step by step; non-trivial = some policy acted. (protocol) generated scenarios with every attempt parked on a harness gate, 1..16 reader goroutines issuing generated sequences of IsDone / non-blocking Done / Get / Result / Error / blocking Done before and after completion, completion listeners logging, and Cancel() before the start, while attempt k is parked, during a 1 h retry delay, or after completion; non-trivial = at least 2 readers were blocked before completion, or a Cancel landed between the first entry and completion; distinct = the scenario. TestCancelAfterInnerTimeout: Retry(Timeout(fn)), the attempt is ended by the inner Timeout, Cancel lands in the 1 h retry delay: every reader must get ErrExecutionCanceled. TestCancelSpin: batches of 2000 async unlimited-retry executions cancelled after a generated spin.",
     assumptions=["IsDone()==true slightly before Done is closed is not flagged (the statement's 'exactly' is checked in the direction Done closed => IsDone true)",
                  "Cancel is only required to surface as ErrExecutionCanceled when a retry or hedge policy is in the stack, as the property says"],
 )
